@@ -4,7 +4,7 @@ Filter.tla defines the predicates (db lists exact, key blacklist/whitelist by pr
 tool's own checkpoint keys, filter.lua) and, per data path, which (db, key) reaches the target.
  (C) TLC checks the cross-path consistency theorems on every configuration built from a pool of
      prefixes {a, ab, b} x db lists x slot list x filter.lua and every key of a pool (empty key,
-     prefix-related keys, checkpoint keys, a hash-tagged key): 24 300 cases (FilterMC).
+     prefix-related keys, checkpoint keys, hash-tagged keys): 27 000 cases (FilterMC).
  (A/B) the same configurations x keys x databases are pushed through the REAL paths - full sync
      (syncRDBFile), restore (restoreRDBFile), incremental (parseSourceCommand + sendTargetCommand with
      SET / SCRIPT LOAD / opinfo in mixed letter case) [rump: see C16] - against the model Redis; every
@@ -20,7 +20,7 @@ from vlib import Infra, log
 from checks.fs_common import run_cases
 
 PID = "C06"
-KEYS = ["", "a", "ab", "abc", "b", "ba", "redis-shake-checkpoint", "redis-shake-checkpoint-x", "{ab}c"]
+KEYS = ["", "a", "ab", "abc", "b", "ba", "redis-shake-checkpoint", "redis-shake-checkpoint-x", "{ab}c", "}x{a}"]
 PREFIX_SETS = [[], ["a"], ["ab"], ["b"], ["a", "ab"], ["a", "b"], ["ab", "b"], ["a", "ab", "b"]]
 DB_CFGS = [({}, "none"), ({"fdb_white": ["0"]}, "w0"), ({"fdb_white": ["0", "2"]}, "w02"), ({"fdb_black": ["1"]}, "b1"), ({"fdb_black": ["0", "1"]}, "b01")]
 SLOT_A = 15495  # Slot("a"), ASSUME-checked in the spec run below through FilterMC's use of Slot(<<97>>)
@@ -98,7 +98,7 @@ def run(tier, seed, replay=None):
     cov = {"states": mc.distinct + stats["states"], "transitions": mc.generated + stats["transitions"], "traces_validated_against_impl": stats["cases"],
            "samples": samples, "evaluations": stats["events"], "distinct_nontrivial": sum(1 for c in cases if c["cfg"].get("fkey_white") or c["cfg"].get("fkey_black") or c["cfg"].get("fdb_white") or c["cfg"].get("fdb_black") or c["cfg"]["fslot"]),
            "rule": "scenarios = {sync, restore, incr} x key filter (none / whitelist / blacklist over the non-empty subsets of {a,ab,b}) x db list (5) x "
-                   "slot list (2) x filter.lua, each with 9 keys x 3 dbs + a Lua script (quick: a seeded sample of the matrix plus the unfiltered and "
+                   "slot list (2) x filter.lua, each with 10 keys x 3 dbs + a Lua script (quick: a seeded sample of the matrix plus the unfiltered and "
                    "whitelist-[a] rows); non-trivial = some filter configured",
            "exhaustive": bool(thorough), "keys_checked": stats["keys"], "checker_cmd": mc.cmd + "; " + stats["cmd"]}
     vlib.write_evidence(PID, tier, seed, "model_checking", cov, time.time() - t0, len(verdict.violations),
